@@ -204,3 +204,17 @@ PROPS["C13"] = dict(
     outside="shapes not enumerated (p2p components, longer addresses, arbitrary DNS names)",
     stubs=[TRACING], assumptions=[FORGET], hooks=[],
 )
+
+PROPS["C31"] = dict(
+    group="gossipsub", files=["c31.rs"],
+    explanation=(
+        "libp2p_gossipsub::protocol::validate_rpc_limits (the pre-validation GossipsubCodec::decode runs on its receive "
+        "buffer) on: a complete length-prefixed RPC of a concrete shape (publish entries, control field, subscriptions, "
+        "empty) followed by 0-3 SYMBOLIC bytes of the next frame, with all three limits symbolic: rejected iff the "
+        "frame's own encoding exceeds max_transmit_size or breaks the publish/control limits, accepted otherwise "
+        "whatever follows it; proper prefixes of a frame: never accepted, and Ok(false) (wait) when the frame is "
+        "admissible."),
+    bounds="frames <= 6 bytes of 5 concrete protobuf shapes, 0-4 trailing symbolic bytes, limits = any usize; one-byte length prefixes; unwind 20",
+    outside="arbitrary (hostile) payload bytes through prost skip_field (recursive group skipping, depth 100: no result in 15 min even for one symbolic byte); GossipsubCodec::decode after the pre-validation (prost parse into Rpc, per-topic size check, signature handling: HashMap + crypto); multi-byte length prefixes; Framed's chunk delivery (covered by quantifying over the buffer contents at each decode call)",
+    stubs=[TRACING, FMT], assumptions=[], hooks=["hook: libp2p_gossipsub::verif_hooks::validate_rpc_limits (wrapper calling the private function)"],
+)
